@@ -98,7 +98,8 @@ func main() {
 			"motif|lds-read-before-write": int64(c.N(10, 40)),
 			"host|one-context":            int64(c.N(50, 500)), "host|worker-launches-main-copies": int64(c.N(2, 10)), "host|main-launches-worker-copies": int64(c.N(2, 10)),
 			"host|three-sibling-contexts": int64(c.N(2, 10)), "host|drain-per-kernel": int64(c.N(10, 100)), "host|enqueue-all-then-drain": int64(c.N(2, 10)),
-			"motif|scalar-reread-of-kernel-written-data": int64(c.N(20, 100)), "host|two-processes": int64(c.N(2, 10)), "host|re-upload-between-kernels": int64(c.N(2, 10))},
+			"motif|scalar-reread-of-kernel-written-data": int64(c.N(20, 100)),
+			"launches_with_partial_workgroups":           int64(c.N(10, 100)), "cases_with_mixed_wavefront_counts_per_cu": int64(c.N(4, 20)), "host|two-processes": int64(c.N(2, 10)), "host|re-upload-between-kernels": int64(c.N(2, 10))},
 	})
 }
 
@@ -245,6 +246,13 @@ func probeSpec(arch, f string) ProgSpec {
 			sp.Chain = 6
 		}
 		return sp
+	case "wg_mixed":
+		// 4 x 9 work-groups of 8x16 with a narrow last column and a low last row:
+		// groups of 2 and 1 wavefronts, per-group loop trip count; on the small platform
+		// variants many groups share a compute unit and finish out of order
+		return ProgSpec{ID: "probe-" + arch + "-" + f, Arch: arch, Seed: hash64("C02/probe/" + f), Allow: append(allow, "dims2", "dims3", "partial_wg", "v5_ids_yz", "smem_x4", "ld_x4", "st_x4"),
+			Force: []string{f}, Probe: f, Geo: &Launch{Grid: [3]uint32{8, 40, 12}, WG: [3]uint16{8, 16, 1}},
+			Script: []string{"spinwg 40 6", "alu 3"}}
 	case "host_enqueue_all":
 		allow = append(allow, "multi_kernel", "smem_x4", "ld_x4", "st_x4")
 		force = append(force, "multi_kernel")
@@ -358,10 +366,13 @@ func (o *orch) run() {
 			}
 			sp := probeSpec(p.Arch, f)
 			ts := []PlatSpec{p.Timing}
-			if f == "slot_recycle_small" || f == "oversub" || f == "smem_dev" {
+			if f == "slot_recycle_small" || f == "oversub" || f == "smem_dev" || f == "wg_mixed" {
 				ts = smallVariants(p)
 				if f == "oversub" || f == "smem_dev" {
 					ts = append([]PlatSpec{p.Timing}, ts...)
+				}
+				if f == "wg_mixed" && len(ts) > 2 {
+					ts = ts[:2] // one and four compute units: the groups have to share them
 				}
 			}
 			jobsA = append(jobsA, &job{id: sp.ID, pair: p, prog: &sp, timing: ts, scope: "probe:" + f, alts: probeAlts(p.Arch, f)})
@@ -453,7 +464,7 @@ func (o *orch) run() {
 					ts = append(ts, vs[i%len(vs)])
 				}
 			}
-			if pg, err := BuildProgram(sp); err == nil && pg.hasFeature("oversub") {
+			if pg, err := BuildProgram(sp); err == nil && (pg.hasFeature("oversub") || pg.hasFeature("wg_mixed")) {
 				for _, v := range smallVariants(p) {
 					dup := false
 					for _, t := range ts {
